@@ -195,6 +195,15 @@ def identity_perm(ctx: Ctx, tw: FuncInfo) -> dict:
                 a = s.d['field'].single_atom()
                 if isinstance(a, tuple) and a[0] == 'iter':
                     ident = True
+            # perm[:] = np.arange(n): the whole vector is 0, 1, ..., n-1
+            if s.d['tkind'] == 'sub' and isinstance(s.d['value'], RF):
+                fk = key_of(s.d['field']) if isinstance(s.d['field'], RF) else s.d['field']
+                va = s.d['value'].single_atom()
+                none = ('const', 'None')
+                if isinstance(fk, tuple) and len(fk) == 4 and fk[0] == 'slice' and fk[1] == none and fk[2] == none \
+                        and fk[3] == none and isinstance(va, tuple) and va and va[0] == 'call' and \
+                        isinstance(va[1], str) and va[1].split('.')[-1] == 'arange' and len(va[2]) == 1:
+                    ident = True
     if not ident:
         return {}
     # the Solver relies on that branch: it passes no permutation
@@ -368,6 +377,12 @@ def r04_6(ctx: Ctx):
     setters = {roles.fq(item.lookup(n)) for n in ('SetZ', 'SetIndex') if item.lookup(n)}
     allowed = {roles.fq(er), roles.fq(tw), roles.fq(rf)} | pcs | setters
     n = 0
+    trial_containers = set()
+    for o in list(ctx.pta._objs.values()):
+        if o.cls is not None and o.kind == 'inst' and any(o.cls.is_subclass_of(c) for c in classes + [item]) and \
+                o.site.startswith(('iOpt/method', 'iOpt/solver', 'iOpt/solution')):
+            for fld in ('functionValues', 'floatVariables'):
+                trial_containers |= {x for x in ctx.pta.read_field(o, fld) if x.kind in ('list', 'ndarray')}
     for m in roles.mutations():
         if m.init_self:
             continue
@@ -383,6 +398,9 @@ def r04_6(ctx: Ctx):
                 m.base_expr.attr in ('functionValues', 'floatVariables'):
             objs = ctx.pta.expr_pts(m.func, m.base_expr.value)
             hit = any(o.cls is not None and any(o.cls.is_subclass_of(c) for c in classes) for o in objs)
+        elif m.kind in ('sub', 'mutcall', 'aug', 'del', 'inplace') and isinstance(m.base_expr, ast.Name):
+            # through a local alias of a trial's value list / coordinate array
+            hit = bool(set(m.bases) & trial_containers)
         if not hit:
             continue
         n += 1
